@@ -45,12 +45,14 @@ def parseInput : List String → Option Input
   | ["hook", "none"] => some (.hookDone none)
   | ["hook", h] => do let b ← hexOr h; pure (.hookDone (some b))
   | ["connect", e] => do let e ← bool? e; pure (.connectDone e)
+  | ["hookkill"] => some .hookKill
   | _ => none
 
 def render (new : State) : String :=
   showOuts new.trace ++ " c=" ++ showConn new.client ++ " s=" ++ showConn new.server
     ++ " ph=" ++ showPhase new.phase ++ " paused=" ++ (if new.pending = .none then "0" else "1")
     ++ " q=" ++ toString new.queue.length ++ " n=" ++ toString new.flowMessages.length
+    ++ " live=" ++ (if new.live then "1" else "0") ++ " err=" ++ (if new.error then "1" else "0")
 
 def stepLine (st : State) (line : String) : State × String :=
   match fields line with
@@ -58,6 +60,10 @@ def stepLine (st : State) (line : String) : State × String :=
     match (match p with | "tcp" => some Proto.tcp | "udp" => some Proto.udp | _ => none), bool? f, bool? c with
     | some p, some f, some c => (init p f c, "ok")
     | _, _, _ => (st, "bad-op")
+  | ["resetx", p, f, c, cd, sd] =>
+    match (match p with | "tcp" => some Proto.tcp | "udp" => some Proto.udp | _ => none), bool? f, bool? c, bool? cd, bool? sd with
+    | some p, some f, some c, some cd, some sd => (initX p f c cd sd, "ok")
+    | _, _, _, _, _ => (st, "bad-op")
   | fs =>
     match parseInput fs with
     | some i =>
